@@ -167,7 +167,11 @@ CLAIMED["C07"] = dict(
        "(spec/TraceReplication.tla, deviations collected so that the rest of a run is still examined), every store's own events against Store.tla, and at the end replica and "
        "primary are compared tx by tx and replica dual proofs are verified against primary states.",
   design_ref="DESIGN.md §4 C07",
-  note="Store level only: the gRPC replicator of pkg/replication and the pkg/database wrappers (ExportTxByID validations, replica state bookkeeping) are emulated by the driver.",
+  note="Two slices. Store level: the replicator loop is emulated by the driver making the same calls. Database level: spec/ReplicationDB.tla + MCReplicationDB.tla (replica state "
+       "reports, the primary's validation / ack counting / allowance, answers, divergence, discards, failover by reconfiguration and by re-routing, restart) model-checked "
+       "exhaustively (3 nodes, one primary switch), weakened variants must have counterexamples, and harness/cmd/c07db runs the REAL replication.TxReplicator between REAL "
+       "database.DB objects in one process (gRPC transport and the ~30 lines of server.exportTx replaced by an in-process stream) under gated schedules (random, TLC-simulated, "
+       "TLC counterexamples, directed failover scenarios); the merged trace (store hooks + driver events) is validated against TraceReplicationDB.tla.",
   technique="TLC exhaustive model checking of the replication relation + TLC trace validation of real primary/replica executions")
 
 CLAIMED["C04"] = dict(
@@ -179,7 +183,8 @@ CLAIMED["C04"] = dict(
        "sizes, 1-3 indexes with mappers) with real flush/compact/reopen; a concurrent driver logs reads with the indexing progress observed before/after and spec/TraceIndex.tla "
        "accepts iff each read equals the reference value at some index time in between.",
   design_ref="DESIGN.md §4 C04, docs/C04.md",
-  note="Store level only (pkg/database Get/Scan/History/Count not driven); exhaustive bounds 2-4 txs x 1-2 entries.",
+  note="Store level only (pkg/database Get/Scan/History/Count not driven); exhaustive bounds 2-4 txs x 1-2 entries. Every run ends with a quiescent comparison of every index "
+       "(also after reopen); gated runs index transactions while a compaction dump is being written (hook gate on the dump's first file).",
   technique="TLC model checking + replay of TLC behaviours on real stores + TLC trace validation of concurrent reads")
 CLAIMED["C11"] = dict(
   category="exploration",
@@ -189,7 +194,8 @@ CLAIMED["C11"] = dict(
        "indexes and runs every query through every access path (forced index, pk scan, non-sargable rewrites, derived tables, hash vs nested-loop joins, hash vs ordered grouping) "
        "inside the writing transaction, after commit and after reopen; all answers must equal the denotation. The reader chains really used are recorded (vacuity check).",
   design_ref="DESIGN.md §4 C11, docs/C11.md",
-  note="Model-based test generation: the verdict is only as wide as the enumerated fragment (2 tables, <= 4 rows).",
+  note="Model-based test generation: the verdict is only as wide as the enumerated fragment (3 tables incl. one with FLOAT / nullable VARCHAR columns and composite indexes, "
+       "cross-type range predicates, multi-column GROUP BY, NULLS FIRST/LAST, joins with non-equality conjuncts and ORDER BY on the inner table).",
   technique="TLA+ denotational query semantics + TLC enumeration, replay through every physical plan on the real engine")
 CLAIMED["C12"] = dict(
   category="model_checking",
@@ -199,7 +205,9 @@ CLAIMED["C12"] = dict(
        "sql.Engine (explicit SQLTx sessions) comparing outcome classes, affected rows, every SELECT and the committed table after every commit; free concurrent sessions are "
        "validated by spec/TraceSQLTx.tla. A deviation is attributed by replaying it in the model under each quirk; unexplained deviations are violations.",
   design_ref="DESIGN.md §4 C12, docs/C12.md",
-  note="One table; ALTER TABLE and multi-table transactions not modelled.",
+  note="spec/SQLUniq.tla: composite unique indexes (2-3 columns), every changed-column subset by UPDATE / UPSERT towards colliding and free tuples, replayed on the real engine. "
+       "spec/SQLCat.tla: the catalog cache protocol across sessions (cold / warm NewTx, DDL commit invalidates, other commits populate under a version check, empty commits), "
+       "model-checked and replayed with interleaved transactions on one engine. Multi-table transactions not modelled.",
   technique="TLC model checking + deterministic replay of statement interleavings on the real engine + TLC trace validation")
 CLAIMED["C13"] = dict(
   category="model_checking",
@@ -217,7 +225,8 @@ CLAIMED["C14"] = dict(
        "placement order with the ValuesAppended gate hook; after each schedule and for every cut point: real TruncateUptoTx, ReadTx+ReadValue, Get, ExportTx under a liveness "
        "deadline, headers and proofs, reopen; plus pkg/database level truncation with SQL catalog and a document collection, and free concurrent runs.",
   design_ref="DESIGN.md §4 C14, docs/C14.md",
-  note="A real TruncateUptoTx runs as one step in replays (interleavings inside it are explored by TLC and by chance in the free runs only).",
+  note="A real TruncateUptoTx runs as one step in replays (interleavings inside it are explored by TLC and by chance in the free runs only). spec/TruncationDist.tla: the "
+       "out-of-order transaction at distance d past the cut with small MaxConcurrency classes (also through ReplicateTx on a replica); database level: refused exports must not leak pooled resources.",
   technique="TLC model checking + gated replay of TLC schedules on the real store")
 CLAIMED["C17"] = dict(
   category="model_checking",
@@ -227,7 +236,8 @@ CLAIMED["C17"] = dict(
        "single-file and multi-file appendables on disk (tiny files and buffers, compression formats, 1-2 open files, retryable sync, preallocation) comparing size, full read-back "
        "and metadata after every step; concurrent readers during appends are validated by spec/TraceAppendable.tla.",
   design_ref="DESIGN.md §4 C17, docs/C17.md",
-  note="fsync failure injection and crash are out of scope here (crash is C03).",
+  note="fsync failure injection and crash are out of scope here (crash is C03). spec/AppendableScript.tla: directed scripts (rewind below / inside the flushed part, Copy with "
+       "unflushed data, SetOffset into the unflushed tail under retryable sync) and simulations seeded with a prefix.",
   technique="TLC model checking of the refinement + replay on real appendables + TLC trace validation of concurrent reads")
 CLAIMED["C19"] = dict(
   category="exploration",
@@ -237,7 +247,7 @@ CLAIMED["C19"] = dict(
        "pkg/database with twin collections (with/without indexes), four concretisation classes (plain, unicode, numeric edge, newline), proofs verified with "
        "pkg/verification.VerifyDocument (altered documents must not verify), close/reopen.",
   design_ref="DESIGN.md §4 C19, docs/C19.md",
-  note="One writer; gRPC layer and paging sessions not driven.",
+  note="One writer; gRPC layer and paging sessions not driven. Nested fields of depth 1..3 (= maximum) with documents lacking intermediate objects in 11 ways; depth 4 must be refused.",
   technique="TLA+ state machine + TLC enumeration/simulation, replay on the real document engine")
 
 REASONS = {}
